@@ -3,10 +3,6 @@
    helpers by textual inclusion (cat conv.ml >> driver) after `open`ing the model module. *)
 let rec nat_of_int n = if n <= 0 then O else S (nat_of_int (n - 1))
 let int_of_nat n = let rec go acc = function O -> acc | S m -> go (acc + 1) m in go 0 n
-let rec pos_of_int n = if n <= 1 then XH else if n land 1 = 0 then XO (pos_of_int (n lsr 1)) else XI (pos_of_int (n lsr 1))
-let rec int_of_pos = function XH -> 1 | XO p -> 2 * int_of_pos p | XI p -> 2 * int_of_pos p + 1
-let z_of_int n = if n = 0 then Z0 else if n > 0 then Zpos (pos_of_int n) else Zneg (pos_of_int (-n))
-let int_of_z = function Z0 -> 0 | Zpos p -> int_of_pos p | Zneg p -> - (int_of_pos p)
 let split_ws s = List.filter (fun x -> x <> "") (String.split_on_char ' ' (String.trim s))
 let rec take n l = if n = 0 then [] else match l with [] -> failwith "take" | x :: r -> x :: take (n - 1) r
 let rec drop n l = if n = 0 then l else match l with [] -> failwith "drop" | _ :: r -> drop (n - 1) r
